@@ -71,6 +71,20 @@ def pyval(code, scale, as_float):
     return int(v)
 
 
+def other_coords_ok(out, dims, ys):
+    """the scalar coordinate and the non-index coordinate of the sliced raster are still attached, the latter
+    sliced consistently with the y coordinate; nothing else is attached"""
+    try:
+        if set(out.coords) != {dims[0], dims[1], "band", "rowlabel"}:
+            return False
+        if int(out.coords["band"].values) != 3:
+            return False
+        yv = np.asarray(out.coords[dims[0]].values, dtype=np.float64)
+        return bool(np.array_equal(np.asarray(out.coords["rowlabel"].values, dtype=np.float64), yv * 2 + 1))
+    except Exception:
+        return False
+
+
 def run_job(j):
     mode, H, W = j["mode"], j["H"], j["W"]
     scale = j.get("scale", 1)
@@ -78,8 +92,22 @@ def run_job(j):
     layout = j.get("layout", "C")
     data = lay(decode(j["data"], j["dtype"], scale), layout)
     attrs = {"res": (1.0, 2.0), "nodata": -1, "note": "c18"}
-    coords = {dims[0]: np.array(j["ys"], dtype=np.float64), dims[1]: np.array(j["xs"], dtype=np.float64)}
-    raster = xr.DataArray(data, dims=dims, coords=coords, attrs=dict(attrs), name="input")
+    # the raster that is sliced carries, besides its two index coordinates, a scalar coordinate and a
+    # non-index coordinate along y: all of them belong to "the coordinates of the original"
+    coords = {dims[0]: np.array(j["ys"], dtype=np.float64), dims[1]: np.array(j["xs"], dtype=np.float64),
+              "band": 3, "rowlabel": (dims[0], np.array(j["ys"], dtype=np.float64) * 2 + 1)}
+    if mode == "trim":
+        raster = xr.DataArray(data, dims=dims, coords=coords, attrs=dict(attrs), name="input")
+    else:
+        # crop: the ZONES raster is a different raster of the same shape - pixel coordinates with another offset
+        # and step (or, for style "bare", no coordinates at all), other attrs, no scalar coordinate
+        zstyle = j.get("zones_style", "pixel")
+        zattrs = {"res": (30.0, 30.0), "crs": "pixel", "zones": True}
+        if zstyle == "bare":
+            raster = xr.DataArray(data, dims=dims, name="zones")
+        else:
+            zc = {dims[0]: 1000.0 + 7.0 * np.arange(H), dims[1]: -500.0 - 3.0 * np.arange(W)}
+            raster = xr.DataArray(data, dims=dims, coords=zc, attrs=zattrs, name="zones")
     lst = j.get("list")
     case = {"mode": mode, "H": H, "W": W, "data": j["data"], "ys": j["ys"], "xs": j["xs"],
             "list": lst if lst is not None else [NAN], "tag": j.get("tag", ""), "job": j}
@@ -104,7 +132,8 @@ def run_job(j):
             case["cells"] = [[int(v) for v in row] for row in ids]
             cscale = 1
             values = xr.DataArray(lay(ids, layout), dims=dims,
-                                  coords={k: v.copy() for k, v in coords.items()}, attrs=dict(attrs), name="vals")
+                                  coords={k: (v.copy() if isinstance(v, np.ndarray) else v) for k, v in coords.items()},
+                                  attrs=dict(attrs), name="vals")
             out = Z.crop(raster, values, args)
             scan = Z._crop(raster.data, args)
         o = np.asarray(out.data)
@@ -115,6 +144,7 @@ def run_job(j):
             "ys": [int(v) if float(v) == int(v) else BAD for v in out.coords[dims[0]].values] if dims[0] in out.coords else [],
             "xs": [int(v) if float(v) == int(v) else BAD for v in out.coords[dims[1]].values] if dims[1] in out.coords else [],
             "attrs_ok": bool(dict(out.attrs) == attrs),
+            "other_coords_ok": other_coords_ok(out, dims, j["ys"]),
             "dims_ok": bool(list(out.dims) == list(dims)),
         }
     except Exception as ex:  # the call itself failed
